@@ -15,8 +15,9 @@ fn on_send(_b: &[u8]) {}
 
 mod clock {
     use std::time::{Duration, SystemTime, UNIX_EPOCH};
+    pub static mut NOW_S: u64 = 0;
     pub fn now_stub() -> SystemTime {
-        UNIX_EPOCH + Duration::new(u64::from(kani::any::<u32>()), 0)
+        UNIX_EPOCH + Duration::new(unsafe { NOW_S }, 0)
     }
 }
 
@@ -102,4 +103,34 @@ fn c16_tcp_probe_table_v6() {
 
 fn verif_reset_statics() {
     sock::reset();
+    unsafe { clock::NOW_S = 0 };
+}
+
+// (Not instantiated: "the attempt whose socket became writable is answered with ITS OWN ports and it
+// alone leaves the table" over two outstanding attempts - ArrayVec::retain + iter_mut().find_map +
+// remove do not get through CBMC in 15 min / 16 GB even with concrete writability; that
+// `recv_tcp_sockets` hands `probe.src_port, probe.dest_port` of the removed entry to
+// `recv_tcp_socket` is by reading.  What `recv_tcp_socket` does with them is c02_v4_recv_tcp_socket.)
+
+/// Attempts older than the connect timeout are dropped before polling.
+#[kani::proof]
+#[kani::unwind(6)]
+#[kani::stub(std::time::SystemTime::now, clock::now_stub)]
+fn c02_channel_tcp_attempts_expire() {
+    let mut ch = any_channel(true);
+    let now: u32 = kani::any();
+    kani::assume(now >= 10);
+    unsafe { clock::NOW_S = u64::from(now) };
+    let age: u8 = kani::any();
+    kani::assume(age <= 5);
+    let start = UNIX_EPOCH + Duration::new(u64::from(now) - u64::from(age), 0);
+    ch.tcp_probes.push(TcpProbe::new(HSock, Port(kani::any()), Port(kani::any()), start));
+    unsafe { sockstate::WRITABLE_MASK = 0 };
+    let r = ch.recv_tcp_sockets();
+    assert!(matches!(r, Ok(None)));
+    // tcp_connect_timeout = 1 s: kept iff elapsed < timeout
+    assert!(ch.tcp_probes.len() == if age < 1 { 1 } else { 0 });
+    kani::cover!(age == 1, "expires exactly at the timeout");
+    std::mem::forget(ch);
+    std::mem::forget(r);
 }
